@@ -31,7 +31,7 @@ class E2Unit:
 
     def build_native(self):
         d = self.dir
-        flags = ['-fsanitize=address,undefined', '-fno-omit-frame-pointer', '-fno-sanitize-recover=undefined']
+        flags = ['-fsanitize=address,undefined', '-fno-sanitize=vptr', '-fno-omit-frame-pointer', '-fno-sanitize-recover=undefined']
         srcs = [self.wrapper, os.path.join(ENGINE, 'vs_native.cpp')] + [os.path.join(REPO, s) for s in self.lib_srcs] + self.native_extra
         objs = []
 
